@@ -38,7 +38,7 @@ def gen(rng, n):
         nodes_bad, kinds = [], []
         for k in range(rng.randint(1, 4)):
             mk = rng.choice(scen.MALFORMED + ['dotdot_trashinfo', 'undated_same_path', 'baddate_same_path', 'tz_date', 'tz_date', 'suffix_twin', 'suffix_twin',
-                                              'link_info', 'link_info', 'link_other', 'pct_nonutf8', 'brace_name', 'brace_name'])
+                                              'link_info', 'link_info', 'link_other', 'pct_nonutf8', 'brace_name', 'brace_name', 'edge_date', 'edge_date', 'undated_lone', 'undated_lone'])
             kinds.append(mk)
             if mk in ('link_info', 'link_other'):
                 # things in info/ that are links: to nowhere, to themselves, to a directory - under a .trashinfo name (with a payload) or not
@@ -62,6 +62,14 @@ def gen(rng, n):
                 # must not touch files/<name>, which belongs to the well-formed entry
                 g = rng.choice(good)
                 nodes_bad.append(['f', td + '/info/' + g['name'] + '.trashinfo.trashinfo', scen.TI % ('/home/u/twin%d' % k, '2001-01-01T00:00:00')])
+            elif mk == 'undated_lone':
+                # no date AND no payload: nothing to go by at all - kept, and no reason to stop
+                nodes_bad += [['f', td + '/info/lone%d.trashinfo' % k, '[Trash Info]\nPath=/home/u/lone%d\n%s' % (k, rng.choice(['', 'DeletionDate=soon\n']))]]
+            elif mk == 'edge_date':
+                # a date at the edge of what datetime can hold: arithmetic on it must not overflow into an abort
+                nodes_bad += [['f', td + '/info/edge%d.trashinfo' % k, '[Trash Info]\nPath=/home/u/edge%d\nDeletionDate=%s\n' %
+                               (k, rng.choice(['9999-12-31T23:59:59', '9999-12-30T00:00:00', '0001-01-01T00:00:00', '0001-01-02T00:00:00']))],
+                              ['f', td + '/files/edge%d' % k, 'p']]
             elif mk == 'pct_nonutf8':
                 # percent-encoded bytes that are not UTF-8 (a Latin-1 name written by another implementation)
                 nodes_bad += [['f', td + '/info/pct%d.trashinfo' % k, '[Trash Info]\nPath=%s\nDeletionDate=2001-01-01T00:00:00\n' %
